@@ -53,6 +53,9 @@ type Ring struct {
 	pausedAt   chan string
 	resume2    chan struct{}
 
+	onIdentity   func()
+	onIdentityOf uint64
+
 	mu      sync.Mutex
 	nodes   map[uint64]*impl.LocalNode
 	wraps   map[uint64]*W
@@ -221,8 +224,44 @@ func (w *W) gate(method string) (pre error, lose bool) {
 	return nil, false
 }
 
+// PauseNext arms a one-shot pause: the next cross-node call whose method name satisfies match blocks before it
+// is delivered. at receives the method name once the caller is blocked; resume lets it continue (idempotent).
+func (r *Ring) PauseNext(match func(method string) bool) (at <-chan string, resume func()) {
+	r.mu.Lock()
+	defer r.mu.Unlock()
+	r.pauseMatch = match
+	r.pausedAt = make(chan string, 1)
+	res := make(chan struct{})
+	r.resume2 = res
+	var once sync.Once
+	return r.pausedAt, func() {
+		once.Do(func() {
+			r.mu.Lock()
+			r.pauseMatch = nil
+			r.mu.Unlock()
+			close(res)
+		})
+	}
+}
+
 func (w *W) ID() uint64               { return w.inner.ID() }
-func (w *W) Identity() *protocol.Node { return w.inner.Identity() }
+func (w *W) Identity() *protocol.Node {
+	// one-shot yield point: LocalNode.RequestToJoin reads joiner.Identity() after it decided that it is
+	// responsible for the joiner and before it takes the membership lock; a concurrent goroutine's work
+	// (e.g. checkPredecessor) is run exactly there
+	w.r.mu.Lock()
+	h := w.r.onIdentity
+	if h != nil && w.r.onIdentityOf == w.inner.ID() {
+		w.r.onIdentity = nil
+	} else {
+		h = nil
+	}
+	w.r.mu.Unlock()
+	if h != nil {
+		h()
+	}
+	return w.inner.Identity()
+}
 func (w *W) Ping() error {
 	if e, _ := w.gate("Ping"); e != nil {
 		return e
@@ -612,6 +651,21 @@ func (r *Ring) Exec(t []string) string {
 			}
 			return "ok:" + idOrNil(p) + ":" + idOrNil(s)
 		})
+	case "leavefinish":
+		// leavefinish <l> <pre> <succ>: the tail of Leave() after a successful executeLeave (advisory to the
+		// predecessor, local state Left, release of the successor's lock)
+		return withTimeout(opTimeout, func() string {
+			l, p, sc := u(1), u(2), u(3)
+			if p != l {
+				r.Wrap(p).FinishLeave(true, false)
+			}
+			r.Node(l).VerifSetState(chord.Left)
+			if sc != l {
+				r.Wrap(sc).FinishLeave(false, true)
+			}
+			r.Node(l).VerifStop()
+			return "ok"
+		})
 	case "joinbegin":
 		r.mu.Lock()
 		r.pauseArmed, r.pauseSeen = true, false
@@ -770,6 +824,28 @@ func (r *Ring) Exec(t []string) string {
 	case "reqjoin":
 		return withTimeout(opTimeout, func() string {
 			p, s, err := r.Wrap(u(1)).RequestToJoin(r.Wrap(u(2)))
+			if err != nil {
+				return ErrName(err)
+			}
+			var ss []string
+			for _, x := range s {
+				ss = append(ss, idOrNil(x))
+			}
+			return "ok:" + idOrNil(p) + ":" + strings.Join(ss, ",")
+		})
+	case "reqjoinrace":
+		// reqjoinrace <via> <joiner> <x>: x's checkPredecessor runs between the routing decision and the
+		// membership lock of the node that handles the join
+		return withTimeout(opTimeout, func() string {
+			x := u(3)
+			r.mu.Lock()
+			r.onIdentityOf = u(2)
+			r.onIdentity = func() { r.nodes[x].VerifCheckPredecessor() }
+			r.mu.Unlock()
+			p, s, err := r.Wrap(u(1)).RequestToJoin(r.Wrap(u(2)))
+			r.mu.Lock()
+			r.onIdentity = nil
+			r.mu.Unlock()
 			if err != nil {
 				return ErrName(err)
 			}
